@@ -329,7 +329,7 @@ func init() {
 			{Name: "api", Count: countFn(20000, 1500000), Run: c10API},
 			{Name: "lang", Count: countFn(3000, 200000), Run: c10Lang},
 			{Name: "typed", Count: countFn(1500, 100000), Run: c10Typed},
-			{Name: "closures", Count: countFn(3000, 200000), Run: func(ctx *core.Ctx, idx int) core.Result { return hofCase("C10", ctx, idx, 1+idx%2) }},
+			{Name: "closures", Count: countFn(3000, 200000), Run: func(ctx *core.Ctx, idx int) core.Result { return hofCase("C10", ctx, idx, 1+(idx/6)%2) }},
 		},
 		Sanitize: []string{"api", "lang"},
 		Floors:   []core.Floor{{Key: "value_ops", Quick: 1000000, Thor: 80000000}, {Key: "recomparisons", Quick: 30000000, Thor: 2000000000}, {Key: "statements_compared", Quick: 50000, Thor: 3000000}, {Key: "nontrivial", Quick: 15000, Thor: 1000000}},
